@@ -439,3 +439,205 @@ func extJSON(r *Run, rng *Rng, n int) {
 		}
 	})
 }
+
+// renamedRoundTrips (C09): the built-in claims types under a registered name of their own: decode(encode) keeps every
+// getter result (the profile's included), the verdict, and the bytes.
+func renamedRoundTrips(r *Run, rng *Rng, n int) {
+	psa.VerifWithScratchRegistry(func() {
+		profs := []RenamedProfile{{Name: extName(71), Base: 2}, {Name: "PSA_IOT_PROFILE_1_RENAMED", Base: 1, WithClaim: true}, {Name: "PSA_IOT_PROFILE_1_BARE", Base: 1}}
+		for _, p := range profs {
+			if err := psa.RegisterProfile(p); err != nil {
+				panic(err)
+			}
+		}
+		for i := 0; i < n; i++ {
+			p := profs[i%len(profs)]
+			d := baseValid(rng, p.Base)
+			d.Canon = p.Name
+			d.Prof = nil
+			if p.Base == 2 || p.WithClaim {
+				d.Prof = sp(p.Name)
+			}
+			normalise(&d)
+			if hasBadUTF8(&d) {
+				continue
+			}
+			c := p.GetClaims()
+			if !applyDesc(c, &d) {
+				r.Fail("setter-valid", "a valid value is refused by a setter of a renamed built-in profile")
+				continue
+			}
+			r.ImplOnly(fmt.Sprintf("renamed/base%d", p.Base), false, fmt.Sprintf("renamed base=%d claim=%v %s", p.Base, p.WithClaim, d.Line()))
+			if err := c.Validate(); err != nil {
+				r.Fail("renamed-valid", fmt.Sprintf("valid claims-set of a renamed built-in profile does not validate: %v", err))
+				continue
+			}
+			b, err := psa.ValidateAndEncodeClaimsToCBOR(c)
+			if err != nil {
+				r.Fail("encode-valid", fmt.Sprintf("renamed profile: valid claims-set does not encode: %v", err))
+				continue
+			}
+			var c2 psa.IClaims
+			if p.Base == 2 {
+				c2, err = psa.DecodeClaimsFromCBOR(append([]byte{}, b...)) // dispatched on key 265
+			} else {
+				c2 = p.GetClaims() // CBOR dispatch cannot select a profile-1 based profile: through its own claims object
+				err = extDM.Unmarshal(b, c2)
+			}
+			if err != nil {
+				r.Fail("decode-own-encoding", fmt.Sprintf("renamed profile: own encoding rejected: %v", err))
+				continue
+			}
+			o1, o2 := observe(c), observe(c2)
+			if o1.String() != o2.String() {
+				r.Fail("roundtrip-getters", fmt.Sprintf("renamed profile: results differ after decode(encode):\n before: %s\n after:  %s", trunc(o1.String(), 300), trunc(o2.String(), 300)))
+			}
+			if b2, err := psa.EncodeClaimsToCBOR(c2); err != nil || !bytes.Equal(b, b2) {
+				r.Fail("roundtrip-bytes", fmt.Sprintf("renamed profile: re-encoding differs: %x vs %x (%v)", b, b2, err))
+			}
+		}
+	})
+}
+
+// renamedDispatch (C07): NewClaims and both dispatchers on built-in claims types registered under names of their own.
+func renamedDispatch(r *Run, rng *Rng, n int) {
+	psa.VerifWithScratchRegistry(func() {
+		profs := []RenamedProfile{{Name: extName(72), Base: 2}, {Name: "PSA_IOT_PROFILE_1_RENAMED", Base: 1, WithClaim: true}, {Name: "PSA_IOT_PROFILE_1_BARE", Base: 1}}
+		for _, p := range profs {
+			if err := psa.RegisterProfile(p); err != nil {
+				panic(err)
+			}
+		}
+		for i := 0; i < n; i++ {
+			p := profs[i%len(profs)]
+			r.ImplOnly(fmt.Sprintf("renamed-dispatch/base%d", p.Base), i >= len(profs)*2, fmt.Sprintf("renamed-dispatch base=%d claim=%v", p.Base, p.WithClaim))
+			c, err := psa.NewClaims(p.Name)
+			if err != nil {
+				r.Fail("new-claims", fmt.Sprintf("NewClaims(%q) of a registered profile fails: %v", p.Name, err))
+				continue
+			}
+			if got, gerr := c.GetProfile(); gerr != nil || got != p.Name {
+				r.Fail("new-claims-reports", fmt.Sprintf("NewClaims(%q).GetProfile() = %q, %v", p.Name, got, gerr))
+			}
+			// a valid token declaring that profile is decoded under it and reports it
+			d := baseValid(rng, p.Base)
+			d.Canon, d.Prof = p.Name, sp(p.Name)
+			normalise(&d)
+			if hasBadUTF8(&d) {
+				continue
+			}
+			src := RenamedProfile{Name: p.Name, Base: p.Base, WithClaim: true}.GetClaims()
+			if !applyDesc(src, &d) {
+				continue
+			}
+			j, err := psa.ValidateAndEncodeClaimsToJSON(src)
+			if err != nil {
+				r.Fail("encode-valid", fmt.Sprintf("renamed profile: %v", err))
+				continue
+			}
+			cj, err := psa.DecodeAndValidateClaimsFromJSON(j)
+			if err != nil {
+				r.Fail("declared-profile", fmt.Sprintf("a valid JSON token declaring the registered profile %q is refused: %v", p.Name, err))
+			} else if got, gerr := cj.GetProfile(); gerr != nil || got != p.Name {
+				r.Fail("accepted-reports-declared", fmt.Sprintf("JSON token declaring %q: decoded claims report %q, %v", p.Name, got, gerr))
+			}
+			if p.Base == 2 {
+				b, _ := psa.ValidateAndEncodeClaimsToCBOR(src)
+				cb, err := psa.DecodeAndValidateClaimsFromCBOR(b)
+				if err != nil {
+					r.Fail("declared-profile", fmt.Sprintf("a valid CBOR token declaring the registered profile %q is refused: %v", p.Name, err))
+				} else if got, gerr := cb.GetProfile(); gerr != nil || got != p.Name {
+					r.Fail("accepted-reports-declared", fmt.Sprintf("CBOR token declaring %q: decoded claims report %q, %v", p.Name, got, gerr))
+				}
+			}
+		}
+	})
+}
+
+// componentCopies (C10, C11): a software component is a value; a copy of one (a := tmpl) is another component. Setting a
+// field of the copy changes what the copy emits, and nothing of what the template or other copies emit.
+func componentCopies(r *Run, rng *Rng, n int) {
+	compObs := func(c *psa.SwComponent) string {
+		mt, e1 := c.GetMeasurementType()
+		mv, e2 := c.GetMeasurementValue()
+		ve, e3 := c.GetVersion()
+		si, e4 := c.GetSignerID()
+		md, e5 := c.GetMeasurementDesc()
+		return fmt.Sprintf("%q/%v %x/%v %q/%v %x/%v %q/%v", mt, e1 != nil, mv, e2 != nil, ve, e3 != nil, si, e4 != nil, md, e5 != nil)
+	}
+	for i := 0; i < n; i++ {
+		p := 1 + i%2
+		tmpl := psa.SwComponent{}
+		_ = tmpl.SetMeasurementValue(fill(32, byte(1+rng.Intn(200))))
+		_ = tmpl.SetSignerID(fill(Pick(rng, []int{32, 48, 64}), byte(1+rng.Intn(200))))
+		if rng.Chance(70) {
+			_ = tmpl.SetVersion("1.2.0")
+		}
+		if rng.Chance(70) {
+			_ = tmpl.SetMeasurementType("BL")
+		}
+		if rng.Chance(70) {
+			_ = tmpl.SetMeasurementDesc("sha-256")
+		}
+		a, b := tmpl, tmpl
+		tBefore, bBefore := compObs(&tmpl), compObs(&b)
+		what := rng.Intn(5)
+		var err error
+		switch what {
+		case 0:
+			err = a.SetVersion("3.4.5")
+		case 1:
+			err = a.SetMeasurementType("M1")
+		case 2:
+			err = a.SetMeasurementDesc("other")
+		case 3:
+			err = a.SetMeasurementValue(fill(48, 0xee))
+		default:
+			err = a.SetSignerID(fill(32, 0xdd))
+		}
+		r.ImplOnly(fmt.Sprintf("component-copies/p%d", p), false, fmt.Sprintf("component-copies p=%d setter=%d tmpl=%s", p, what, tBefore))
+		if err != nil {
+			r.Fail("setter-valid", fmt.Sprintf("component setter %d refuses a valid value: %v", what, err))
+			continue
+		}
+		if compObs(&tmpl) != tBefore || compObs(&b) != bBefore {
+			r.Fail("set-frame", fmt.Sprintf("setting field %d of a copy of a component changed the template or a sibling copy: template %s -> %s", what, tBefore, compObs(&tmpl)))
+		}
+		// both copies in one claims-set: each emits its own values
+		d := baseValid(rng, p)
+		d.Canon, d.Prof = canonOf(p), sp(canonOf(p))
+		d.NoSw, d.SwKind = nil, SwList
+		d.Sw = []CompDesc{validComp(rng)}
+		normalise(&d)
+		if hasBadUTF8(&d) {
+			continue
+		}
+		c, _ := psa.NewClaims(canonOf(p))
+		if !applyDesc(c, &d) {
+			continue
+		}
+		if err := c.SetSoftwareComponents([]psa.ISwComponent{&a, &b}); err != nil {
+			r.Fail("setter-valid", fmt.Sprintf("two valid components refused: %v", err))
+			continue
+		}
+		enc, err := psa.ValidateAndEncodeClaimsToCBOR(c)
+		if err != nil {
+			r.Fail("encode-valid", fmt.Sprintf("claims-set with two component copies does not encode: %v", err))
+			continue
+		}
+		dec, err := psa.DecodeAndValidateClaimsFromCBOR(enc)
+		if err != nil {
+			r.Fail("decode-own-encoding", fmt.Sprintf("%v", err))
+			continue
+		}
+		got, _ := dec.GetSoftwareComponents()
+		if len(got) != 2 {
+			r.Fail("wire-format", fmt.Sprintf("two components set, %d emitted", len(got)))
+			continue
+		}
+		ga, gb := got[0].(*psa.SwComponent), got[1].(*psa.SwComponent)
+		if compObs(ga) != compObs(&a) || compObs(gb) != bBefore {
+			r.Fail("wire-format", fmt.Sprintf("components emitted with values other than the ones held: first %s (holds %s), second %s (holds %s)", compObs(ga), compObs(&a), compObs(gb), bBefore))
+		}
+	}
+}
